@@ -55,6 +55,21 @@ func NewGen(u *Universe, g Genesis, r *vlib.Rng, opts GenOpts) *Gen {
 	return gen
 }
 
+// ExtendGammas makes commitments available for thresholds up to n (default: 4).
+func (g *Gen) ExtendGammas(n int) {
+	pr := vlib.NewRng(7, 0x67616d6e)
+	for deg := uint64(len(g.gammas)); deg < uint64(n); deg++ {
+		p, err := shcrypto.RandomPolynomial(pr, deg)
+		if err != nil {
+			panic(err)
+		}
+		g.gammas = append(g.gammas, p.Gammas())
+	}
+}
+
+// NextNonce hands out a fresh nonce (for transactions the caller signs itself).
+func (g *Gen) NextNonce() uint64 { return g.nextNonce() }
+
 func (g *Gen) nextNonce() uint64 { g.nonce++; return g.nonce }
 
 func (g *Gen) Sign(signer int, msg *shmsg.Message, label string) Tx {
@@ -366,6 +381,13 @@ func (g *Gen) NextBlock() []Tx {
 	return txs
 }
 
+// Scripted lets the caller place a block of its own into the generated history (the shadow replica
+// follows).
+func (g *Gen) Scripted(txs []Tx) []Tx {
+	g.Shadow.ApplyBlock(txs)
+	return txs
+}
+
 // RandomGenesis builds a genesis over the universe.
 func RandomGenesis(u *Universe, r *vlib.Rng) Genesis {
 	n := 1 + r.Intn(len(u.Keys)-1)
@@ -377,13 +399,17 @@ func RandomGenesis(u *Universe, r *vlib.Rng) Genesis {
 	}
 	g := Genesis{Keypers: r.Perm(len(u.Keys))[:n], InitialEon: uint64(r.Intn(3))}
 	g.Threshold = uint64(1 + r.Intn(n))
-	switch r.Intn(3) {
+	switch r.Intn(4) {
 	case 0:
 		g.Fork = app.NewForkHeightsAllDisabled()
 	case 1:
 		g.Fork = app.NewForkHeightsAllEnabled()
 	case 2:
 		g.Fork = &app.ForkHeights{CheckInUpdateNew: app.ForkHeight{Enabled: true, Height: int64(2 + r.Intn(20))}}
+	case 3:
+		// a genesis file written before the fork-height format changed ("checkInUpdate": H)
+		h := int64(2 + r.Intn(20))
+		g.Fork = &app.ForkHeights{CheckInUpdate: &h}
 	}
 	nv := 1 + r.Intn(3)
 	for i := 0; i < nv; i++ {
